@@ -4,6 +4,8 @@ P="$1"; shift
 cd /repo || exit 2
 git diff --quiet || { echo "/repo has uncommitted changes" >&2; exit 2; }
 git apply "$P" || { echo "patch does not apply" >&2; exit 2; }
+# evidence written while a seeded change is applied must never end up committed
+EVBAK=$(mktemp -d /tmp/evbak.XXXXXX); cp -a /verif/evidence/. "$EVBAK"/
 for id in "$@"; do
   /verif/check "$id" --tier "${TIER:-quick}" > /tmp/try_seed.$id.log 2>&1
   rc=$?
@@ -13,3 +15,4 @@ for id in "$@"; do
   grep -E "MACHINERY" /tmp/try_seed.$id.log | head -3
 done
 git -C /repo checkout -- .
+rm -rf /verif/evidence; mkdir -p /verif/evidence; cp -a "$EVBAK"/. /verif/evidence/; rm -rf "$EVBAK"
